@@ -167,6 +167,7 @@ def judge_hand(spec, out):
     for (b, n) in spec["calls"]:
         before = cell.nodes.copy(deep=True)
         groups_before = {g: sorted({int(before.loc[i, "global_branch_index"]) for i in v}) for g, v in cell.groups.items()}
+        order_before = {g: [int(i) for i in v] == sorted(int(i) for i in v) for g, v in cell.groups.items()}
         parents_before = np.asarray(cell.comb_parents).tolist()
         _, err = core.call(cell.branch(int(b)).set_ncomp, int(n))
         siblings_with_children = [o for o in range(nb) if o != b and spec["parents"][o] == spec["parents"][b] and o in has_children]
@@ -220,6 +221,12 @@ def judge_hand(spec, out):
             brs = sorted({int(after.loc[i, "global_branch_index"]) for i in rows})
             full = sorted(int(i) for bb in brs for i in branch_rows(after, bb))
             groups_after[g] = (brs, rows == full)
+        for g, v in cell.groups.items():
+            # a group view lists its compartments in the order of the group array: array-valued set(), record() and
+            # multi-row stimuli go by position, so the order is part of what the group denotes
+            if g in order_before and order_before[g] and [int(i) for i in v] != sorted(int(i) for i in v):
+                out.violate("groups", f"group {g} listed its rows in ascending order before set_ncomp({n}) on branch {b}; afterwards it lists {[int(i) for i in v]}")
+                return out
         for g, brs in groups_before.items():
             if g not in groups_after or groups_after[g][0] != brs or not groups_after[g][1]:
                 out.violate("groups", f"group {g} was built from branches {spec['groups'][g]}; after set_ncomp({n}) on branch {b} it holds rows "
@@ -242,6 +249,11 @@ def judge_hand(spec, out):
     if cells or notes:
         out.violate("vs-direct-table", f"after {spec['calls']} the table differs from a cell built directly with ncomp {ncomps}: {sorted(cells)[:5]} {notes[:2]}")
         return out
+    for g in direct.groups:
+        if g not in cell.groups or [int(i) for i in cell.groups[g]] != [int(i) for i in direct.groups[g]]:
+            out.violate("vs-direct-groups", f"after {spec['calls']} group {g} is {[int(i) for i in cell.groups.get(g, [])]}; a cell built directly with ncomp {ncomps} "
+                        f"and the same add_to_group calls has {[int(i) for i in direct.groups[g]]}")
+            return out
     for backend in gn.BACKENDS:
         ra, e1 = core.call(simulate, build_after(spec), spec, backend)
         rd, e2 = core.call(simulate, build_hand(spec, ncomps), spec, backend)
@@ -302,6 +314,7 @@ def judge_swc(spec, out):
             done.add(b)
             before = cell.nodes.copy(deep=True)
             gb = {g: sorted({int(before.loc[i, "global_branch_index"]) for i in v}) for g, v in cell.groups.items()}
+            ob = {g: [int(i) for i in v] == sorted(int(i) for i in v) for g, v in cell.groups.items()}
             _, err = core.call(lambda: cell.branch(b).set_ncomp(int(n), min_radius=mr))
             if err:
                 cur = int((before["global_branch_index"] == b).sum())
@@ -327,6 +340,9 @@ def judge_swc(spec, out):
                         out.violate("other-branches", f"SWC cell: set_ncomp({n}) on branch {b} changed {col} of branch {o}")
                         return out
             for g, brs in gb.items():
+                if ob.get(g) and [int(i) for i in cell.groups[g]] != sorted(int(i) for i in cell.groups[g]):
+                    out.violate("groups", f"SWC cell: type group {g} listed its rows in ascending order before set_ncomp({n}) on branch {b}; afterwards it lists {[int(i) for i in cell.groups[g]][:16]}")
+                    return out
                 rows = sorted(int(i) for i in cell.groups[g])
                 ok = all(0 <= i < len(after) for i in rows)
                 got = sorted({int(after.loc[i, "global_branch_index"]) for i in rows}) if ok else None
